@@ -24,37 +24,37 @@ type ExtSpec struct {
 }
 
 var extTable = map[string]ExtSpec{
-	"fmt.Errorf":    {Known: true, NonNil: true, NoPanic: true},
-	"errors.New":    {Known: true, NonNil: true, NoPanic: true},
-	"fmt.Sprintf":   {Known: true, Pure: true, NoPanic: true},
-	"fmt.Sprint":    {Known: true, Pure: true, NoPanic: true},
-	"fmt.Printf":    {Known: true, NoPanic: true, Effects: []string{"stdout"}},
-	"fmt.Println":   {Known: true, NoPanic: true, Effects: []string{"stdout"}},
-	"fmt.Print":     {Known: true, NoPanic: true, Effects: []string{"stdout"}},
-	"os.Getenv":     {Known: true, NoPanic: true, Nondet: true, Effects: []string{"env"}},
-	"time.Now":      {Known: true, NoPanic: true, Nondet: true, Effects: []string{"clock"}},
-	"time.LoadLocation": {Known: true, NoPanic: true, Nondet: true, Effects: []string{"tzdb"}},
-	"time.Unix":     {Known: true, Pure: true, NoPanic: true},
-	"sort.Sort":     {Known: true, HavocArgs: true},
-	"sort.Slice":    {Known: true, HavocArgs: true},
-	"sort.Strings":  {Known: true, HavocArgs: true, NoPanic: true},
-	"context.Background": {Known: true, Pure: true, NonNil: true, NoPanic: true},
-	"(*sync.Mutex).Lock":   {Known: true, NoPanic: true},
-	"(*sync.Mutex).Unlock": {Known: true, NoPanic: true}, // pairing with Lock is checked structurally (C11)
-	"(*sync.RWMutex).Lock":   {Known: true, NoPanic: true},
-	"(*sync.RWMutex).Unlock": {Known: true, NoPanic: true},
-	"(*sync.RWMutex).RLock":   {Known: true, NoPanic: true},
-	"(*sync.RWMutex).RUnlock": {Known: true, NoPanic: true},
+	"fmt.Errorf":                            {Known: true, NonNil: true, NoPanic: true},
+	"errors.New":                            {Known: true, NonNil: true, NoPanic: true},
+	"fmt.Sprintf":                           {Known: true, Pure: true, NoPanic: true},
+	"fmt.Sprint":                            {Known: true, Pure: true, NoPanic: true},
+	"fmt.Printf":                            {Known: true, NoPanic: true, Effects: []string{"stdout"}},
+	"fmt.Println":                           {Known: true, NoPanic: true, Effects: []string{"stdout"}},
+	"fmt.Print":                             {Known: true, NoPanic: true, Effects: []string{"stdout"}},
+	"os.Getenv":                             {Known: true, NoPanic: true, Nondet: true, Effects: []string{"env"}},
+	"time.Now":                              {Known: true, NoPanic: true, Nondet: true, Effects: []string{"clock"}},
+	"time.LoadLocation":                     {Known: true, NoPanic: true, Nondet: true, Effects: []string{"tzdb"}},
+	"time.Unix":                             {Known: true, Pure: true, NoPanic: true},
+	"sort.Sort":                             {Known: true, HavocArgs: true},
+	"sort.Slice":                            {Known: true, HavocArgs: true},
+	"sort.Strings":                          {Known: true, HavocArgs: true, NoPanic: true},
+	"context.Background":                    {Known: true, Pure: true, NonNil: true, NoPanic: true},
+	"(*sync.Mutex).Lock":                    {Known: true, NoPanic: true},
+	"(*sync.Mutex).Unlock":                  {Known: true, NoPanic: true}, // pairing with Lock is checked structurally (C11)
+	"(*sync.RWMutex).Lock":                  {Known: true, NoPanic: true},
+	"(*sync.RWMutex).Unlock":                {Known: true, NoPanic: true},
+	"(*sync.RWMutex).RLock":                 {Known: true, NoPanic: true},
+	"(*sync.RWMutex).RUnlock":               {Known: true, NoPanic: true},
 	"(encoding/binary.bigEndian).Uint16":    {Known: true, Pure: true},
 	"(encoding/binary.bigEndian).PutUint16": {Known: true, HavocArgs: true},
-	"hash/fnv.New64a": {Known: true, NonNil: true, NoPanic: true},
-	"math.Pow":  {Known: true, Pure: true, NoPanic: true},
-	"math.Sqrt": {Known: true, Pure: true, NoPanic: true},
-	"regexp.Compile": {Known: true, Pure: true, NoPanic: true},
-	"regexp.MustCompile": {Known: true, Pure: true},
-	"reflect.ValueOf":  {Known: true, Pure: true, NoPanic: true},
-	"reflect.Indirect": {Known: true, Pure: true, NoPanic: true},
-	"reflect.TypeOf":   {Known: true, Pure: true, NoPanic: true},
+	"hash/fnv.New64a":                       {Known: true, NonNil: true, NoPanic: true},
+	"math.Pow":                              {Known: true, Pure: true, NoPanic: true},
+	"math.Sqrt":                             {Known: true, Pure: true, NoPanic: true},
+	"regexp.Compile":                        {Known: true, Pure: true, NoPanic: true},
+	"regexp.MustCompile":                    {Known: true, Pure: true},
+	"reflect.ValueOf":                       {Known: true, Pure: true, NoPanic: true},
+	"reflect.Indirect":                      {Known: true, Pure: true, NoPanic: true},
+	"reflect.TypeOf":                        {Known: true, Pure: true, NoPanic: true},
 }
 
 var purePkgs = map[string]bool{"strings": true, "strconv": true, "unicode": true, "unicode/utf8": true, "math": true, "bytes": true, "errors": true}
